@@ -1090,11 +1090,130 @@ def _parsers(repo, rep):
               "'local')" in t, "R01.8", ve.qualname, "the context keyword "
               "decides local vs global", construct="define-context",
               where=L.where(ve))
+    statement_patterns(repo, rep)
     f = repo.func("chameleon.zpt.program.MacroProgram._make_content_node")
     t = L.text(f.node)
     rep.check("char_escape = ('&', '<', '>') if key == 'text' else ()" in t,
               "R01.8", f.qualname, "only the structure keyword switches "
               "escaping off", construct="subst-key-escape", where=L.where(f))
+
+
+STATEMENT_PATTERNS = (
+    # (module, constant, expression group, least width of the expression)
+    ("chameleon.tal", "DEFINE_RE", 3, 0),
+    ("chameleon.tal", "SUBST_RE", 2, 0),
+    ("chameleon.tal", "ATTR_RE", 2, 1),
+)
+
+
+def statement_patterns(repo, rep, rule="R01.8"):
+    """The statement patterns of tal.py, on their syntax trees: white space
+    means every white-space character (a statement value may be wrapped over
+    lines, or use tabs); a lazy white-space repeat never hands its blanks to
+    the captured expression; a blank behind the comma of a name list is
+    optional; and the pattern leaves an empty expression to the expression
+    engine (which reports it at its position, deferred in non-strict mode):
+    the expression group of tal:define / tal:content may be empty, that of
+    a tal:attributes entry is at least its first character."""
+    for modname, cname, gid, least in STATEMENT_PATTERNS:
+        rc = repo.const(modname, cname)
+        site = "%s.%s" % (modname, cname)
+        probs, counts = L.regex_shape(rc.pattern, rc.flags)
+        if counts["ws"] < 2:
+            raise AnalysisError("%s: white-space repeats vanished" % site)
+        rep.check(not probs, rule, site, "white space in the pattern is "
+                  "any white space, lazily matched only where nothing "
+                  "captured can take it, optional behind a comma "
+                  "(%d repeats)" % counts["ws"],
+                  construct="statement-space:" + cname,
+                  detail="; ".join(sorted({t for k, t in probs})))
+        w = L.group_width(rc.pattern, rc.flags, gid)
+        if w is None:
+            raise AnalysisError("%s: group %d vanished" % (site, gid))
+        rep.check(w[0] == least and w[1] > 65535, rule, site, "the "
+                  "expression group admits %s and has no upper bound" % (
+                      "the empty text (the expression engine reports an "
+                      "empty expression, at its position)" if least == 0
+                      else "a one-character expression"),
+                  construct="statement-expression-width:" + cname,
+                  detail="width %s" % (w,))
+    # split_parts: the scan consumes exactly what it recognises -- two
+    # characters for an escaped ';;', one for a separator, one otherwise;
+    # the entity scan starts at the beginning; a trailing empty part is
+    # dropped only when it is not the only part
+    sp = repo.func("chameleon.tal.split_parts")
+    bad = []
+    loops = [n for n in sp.node.body if isinstance(n, ast.While)]
+    scan = [lp for lp in loops if any(
+        isinstance(x, ast.Compare) and "';'" in src(x) for x in ast.walk(lp))]
+    ent = [lp for lp in loops if lp not in scan]
+    if len(scan) != 1 or len(ent) != 1:
+        raise AnalysisError("split_parts: loops not understood")
+    # entity scan: starts at 0
+    starts = [a for a in sp.node.body if isinstance(a, ast.Assign)
+              and a.lineno < ent[0].lineno
+              and any(src(t) == "i" for t in a.targets)]
+    def _const_int(e):
+        try:
+            return int(ast.literal_eval(e))
+        except (ValueError, TypeError):
+            return None
+    # (a negative start position is clamped to 0 by the regex engine)
+    if not starts or _const_int(starts[-1].value) is None or \
+            _const_int(starts[-1].value) > 0:
+        bad.append("the entity scan does not start at offset 0")
+    for c in ast.walk(ent[0]):
+        if isinstance(c, ast.Call) and src(c.func).endswith(".search") and \
+                (len(c.args) < 2 or src(c.args[1]) != "i"):
+            bad.append("the entity scan does not continue at i")
+    for a in ast.walk(ent[0]):
+        if isinstance(a, ast.Call) and src(a.func) == "protected.add" and \
+                src(a.args[0]).replace(" ", "") != "m.end()-1":
+            bad.append("the protected offset is %s, the ';' of an entity "
+                       "is its last character" % src(a.args[0]))
+    lp = scan[0]
+    for n in ast.walk(lp):
+        if isinstance(n, ast.AugAssign) and src(n.target) == "i" and \
+                isinstance(n.op, ast.Add):
+            gs = [src(t_) for t_, v_ in L.guards_of(n, lp) if isinstance(
+                t_, ast.expr) and v_]
+            escaped = any("arg[i + 1] == ';'" in g_.replace(
+                "';' == arg[i + 1]", "arg[i + 1] == ';'") for g_ in gs)
+            want = 2 if escaped else 1
+            if not (isinstance(n.value, ast.Constant)
+                    and n.value.value == want):
+                bad.append("i advances by %s %s" % (
+                    src(n.value), "over an escaped ';;' (two characters)"
+                    if escaped else "over one character"))
+        if isinstance(n, ast.Assign) and src(n.targets[0]) == "start" and \
+                src(n.value).replace(" ", "") != "i+1":
+            bad.append("the next part starts at %s (the separator is one "
+                       "character)" % src(n.value))
+        if isinstance(n, ast.Call) and src(n.func) == "parts.append" and \
+                src(n.args[0]).replace(" ", "") != "arg[start:i]":
+            bad.append("a part is %s" % src(n.args[0]))
+    drops = [n for n in ast.walk(sp.node) if isinstance(n, ast.Delete)]
+    for d in drops:
+        for t_, v_ in L.guards_of(d, sp.node):
+            if isinstance(t_, ast.expr) and "len(parts)" in src(t_):
+                for cj in (t_.values if isinstance(t_, ast.BoolOp)
+                           else [t_]):
+                    if "len(parts)" in src(cj) and isinstance(
+                            cj, ast.Compare):
+                        e = ast.parse(src(cj).replace("len(parts)", "n_"),
+                                      mode="eval").body
+                        tv = [L.int_guard_truth(e, "n_", k)
+                              for k in (1, 2, 3)]
+                        if tv != [False, True, True]:
+                            bad.append("the trailing empty part is dropped "
+                                       "when %s (a lone empty part has to "
+                                       "stay: an empty statement is an "
+                                       "error)" % src(cj))
+    rep.check(not bad, rule, sp.qualname, "the part splitter consumes what "
+              "it recognises: two characters for ';;', one for a "
+              "separator; entities are looked for from the start; a lone "
+              "empty part stays", construct="split-parts-steps",
+              where=L.where(sp), detail="; ".join(bad))
 
 
 def _tables(repo, rep, func):
